@@ -643,10 +643,17 @@ func (t *Teamserver) handleRequest(id string) {
 
 		logger.Good("User <" + colors.Blue(UserName) + "> " + colors.Green("Authenticated"))
 
+		// from now on events are broadcast to this client as well. until it has been sent the
+		// retained events (SendAllPackagesToNewClient) they wait and follow them: a live event
+		// may refer to, or take back, what a retained one says
+		client.Mutex.Lock()
+		client.Replaying = true
+		client.Mutex.Unlock()
+
 		client.Authenticated = true
 		client.ClientID = id
 
-		err := t.SendEvent(id, events.Authenticated(true))
+		err := t.sendEvent(id, events.Authenticated(true), true)
 		if err != nil {
 			logger.Error("client (" + colors.Red(id) + ") error while sending authenticate message:" + colors.Red(err))
 		}
@@ -860,6 +867,13 @@ func (t *Teamserver) EventListenerError(ListenerName string, Error error) {
 }
 
 func (t *Teamserver) SendEvent(id string, pk packager.Package) error {
+	return t.sendEvent(id, pk, false)
+}
+
+// sendEvent
+// replay: the event is part of what a client is sent right after it authenticated
+// (the authentication answer, the retained events, the sessions)
+func (t *Teamserver) sendEvent(id string, pk packager.Package, replay bool) error {
 	var (
 		buffer bytes.Buffer
 		err    error
@@ -874,6 +888,13 @@ func (t *Teamserver) SendEvent(id string, pk packager.Package) error {
 	if isOk {
 		client := value.(*Client)
 		client.Mutex.Lock()
+
+		if client.Replaying && !replay {
+			// a live event for a client that is still being sent the retained ones
+			client.Pending = append(client.Pending, buffer.Bytes())
+			client.Mutex.Unlock()
+			return nil
+		}
 
 		// a client that stopped reading must not block event distribution forever
 		_ = client.Connection.SetWriteDeadline(time.Now().Add(10 * time.Second))
@@ -944,12 +965,16 @@ func (t *Teamserver) EventRemove(EventID int) []packager.Package {
 }
 
 func (t *Teamserver) SendAllPackagesToNewClient(ClientID string) {
+	// whatever happens, the live events that waited meanwhile are sent (or dropped with the
+	// connection) and later ones go out directly again
+	defer t.sendPendingEvents(ClientID)
+
 	t.EventsMtx.Lock()
 	var Events = append([]packager.Package(nil), t.EventsList...)
 	t.EventsMtx.Unlock()
 
 	for _, Package := range Events {
-		err := t.SendEvent(ClientID, Package)
+		err := t.sendEvent(ClientID, Package, true)
 		if err != nil {
 			logger.Error("error while sending info to client("+ClientID+"): ", err)
 			return
@@ -963,11 +988,46 @@ func (t *Teamserver) SendAllPackagesToNewClient(ClientID string) {
 		}
 
 		pk := t.EventNewDemon(demon)
-		err := t.SendEvent(ClientID, pk)
+		err := t.sendEvent(ClientID, pk, true)
 		if err != nil {
 			logger.Error("error while sending info to client("+ClientID+"): ", err)
 			return
 		}
+	}
+}
+
+// sendPendingEvents
+// the client has been sent the retained events: send the live ones that waited, in the order
+// in which they came, and let later ones through directly.
+func (t *Teamserver) sendPendingEvents(ClientID string) {
+	value, isOk := t.Clients.Load(ClientID)
+	if !isOk {
+		return
+	}
+	client := value.(*Client)
+
+	for {
+		client.Mutex.Lock()
+		if len(client.Pending) == 0 {
+			client.Replaying = false
+			client.Pending = nil
+			client.Mutex.Unlock()
+			return
+		}
+
+		var Event = client.Pending[0]
+		client.Pending = client.Pending[1:]
+
+		_ = client.Connection.SetWriteDeadline(time.Now().Add(10 * time.Second))
+		err := client.Connection.WriteMessage(websocket.BinaryMessage, Event)
+		if err != nil {
+			// the connection is of no use any more: nothing waits for it
+			client.Replaying = false
+			client.Pending = nil
+			client.Mutex.Unlock()
+			return
+		}
+		client.Mutex.Unlock()
 	}
 }
 
